@@ -199,7 +199,6 @@ Fixpoint scan_string (fuel : nat) (l : str) (err : bool) : str * bool :=
       end
   end.
 
-Definition RAWQ : N := 172.
 
 (** scanRawString: [l] starts after the opening ¬; returns (rest, error?).  On an unterminated
     literal Go returns ch = 0: the error is raised, the rest does not matter (tokenize aborts). *)
